@@ -41,6 +41,7 @@ def base_program(rng, x, variant):
                     "eps": 10, "sumdf": 10, "adf": 10, "udf": 10, "name": ["lit", "sig%d" % g], "units": ["lit", "u"]})
     i0 = i1 = 0
     k = 0
+    last_utc = -1
     while i0 < n0 or i1 < n1:
         if i0 < n0:
             m = min(n0 - i0, rng.choice([37, 64, 100]))
@@ -53,8 +54,13 @@ def base_program(rng, x, variant):
         k += 1
         if k % 2 == 0:
             ops.append({"op": "anno", "sig": 1 if k % 4 else 0, "ts": i0 if k % 4 else k, "stype": 2, "atype": 1, "data": ["lit", "a%d" % k]})
-        if k % 3 == 0:
-            ops.append({"op": "utc", "sig": 1, "id": i0, "t": 1000 * k})
+        # UTC entries: more than two summary chunks' worth (udf = 10), times off any straight line, so that a time map
+        # built from only some of them gives other conversion results than the complete one
+        for j in range(4):
+            uid = i0 - 3 + j
+            if uid > last_utc:
+                ops.append({"op": "utc", "sig": 1, "id": uid, "t": 1000 * uid + 137 * ((uid * 7) % 5)})
+                last_utc = uid
     ops += [{"op": "userdata", "meta": 9, "stype": 1, "data": ["rep", 24, x]}, {"op": "wclose"}]
     return ops
 
